@@ -11,7 +11,7 @@ open BfeVerif.Proto
 /-! ### rendering (as `render` of the harness) -/
 
 def Out.id : Out → Nat
-  | .rst id _ | .wu id _ | .reply id _ | .data id _ _ | .read id _ => id
+  | .rst id _ | .wu id _ | .reply id _ | .data id _ _ | .read id _ | .rend id _ => id
   | .goaway .. | .ping _ => 0
 
 def Out.str : Out → String
@@ -22,6 +22,7 @@ def Out.str : Out → String
   | .reply a f => s!"reply({a},{if f then 1 else 0})"
   | .data a l f => s!"data({a},{l},{if f then 1 else 0})"
   | .read a n => s!"read({a},{n})"
+  | .rend a k => s!"rend({a},{if k = 0 then "full" else if k = 1 then "eof" else "err"})"
 
 /-- merge the WINDOW_UPDATEs of one stream id into the first one -/
 def mergeWu : List Out → List Out → List Out
@@ -37,6 +38,7 @@ def mergeWu : List Out → List Out → List Out
 /-- order inside a stream's group: goaway, ping, rst, reply, data (arrival order), wu, read -/
 def Out.rank : Out → Nat
   | .goaway .. => 0 | .ping _ => 1 | .rst .. => 2 | .reply .. => 3 | .data .. => 4 | .wu .. => 5 | .read .. => 6
+  | .rend .. => 7
 
 def insertById (o : Out) : List Out → List Out
   | [] => [o]
@@ -91,6 +93,7 @@ structure MSt where
   decl : Option Nat := none  -- Content-Length announced for the request body
   got : Nat := 0           -- body bytes sent so far
   unread : Int := 0        -- body bytes the server accepted and its handler has not consumed yet
+  finSent : Bool := false  -- the client has ended the request body (FIN on SYN_STREAM or DATA)
   deriving Repr
 
 structure Mon where
@@ -106,11 +109,17 @@ structure Mon where
 
 inductive Tok
   | rst (id c : Nat) | goaway (l c : Nat) | ping (id : Nat) | wu (id n : Nat) | reply (id : Nat) (fin : Bool)
-  | data (id len : Nat) (fin : Bool) | read (id n : Nat) | other
+  | data (id len : Nat) (fin : Bool) | read (id n : Nat) | rend (id kind : Nat) | other
   deriving Repr, DecidableEq
 
 def parseTok (s : String) : Tok :=
   match s.splitOn "(" with
+  | ["rend", rest] =>
+    match (rest.dropEnd 1).toString.splitOn "," with
+    | [a, k] => match a.toNat? with
+      | some i => .rend i (if k == "full" then 0 else if k == "eof" then 1 else 2)
+      | none => .other
+    | _ => .other
   | [name, rest] =>
     let args := ((rest.dropEnd 1).toString.splitOn ",").map String.toNat?
     match name, args with
@@ -229,7 +238,7 @@ def monEvent (adv : Nat) (m : Mon) (e : Ev) (toks : List Tok) (closed : Bool) : 
       -- a request that announces a body (no FIN) must not be a HEAD and must carry a usable Content-Length
       let malformed := !fin && (meth == 2 || cl == 1 || cl == 2)
       let m := { m with maxSeen := id,
-                        streams := m.streams ++ [{ id, state := if fin then .hcr else .open, outWin := m.iws,
+                        streams := m.streams ++ [{ id, state := if fin then .hcr else .open, outWin := m.iws, finSent := fin,
                                                    decl := if !fin ∧ cl ≥ 10 then some (cl - 10) else none }] }
       if live + 1 > adv then (if closed then .ok m else .error "max-streams-not-enforced")
       else if closed then .error "connection-killed"
@@ -281,7 +290,7 @@ def monEvent (adv : Nat) (m : Mon) (e : Ev) (toks : List Tok) (closed : Bool) : 
         else
           let m := mUpd { m with connIn := m.connIn - len } id fun x =>
             { x with inWin := x.inWin - len, got := x.got + len, unread := x.unread + len,
-                     state := if fin then .hcr else x.state }
+                     state := if fin then .hcr else x.state, finSent := x.finSent || fin }
           monOut m toks
   | .wu id delta =>
     let d : Int := (delta % 2147483648 : Nat)
@@ -340,6 +349,14 @@ def goawayLastOK (m : Mon) (toks : List Tok) : Bool :=
     | .goaway l _ => acted ≤ l && l ≤ m.maxSeen
     | _ => true
 
+/-- the contract of the request body's Read, as the handler saw it: io.EOF only after the client ended the body,
+    an error only once the stream is closed -/
+def readEndsOK (m : Mon) (toks : List Tok) : Bool :=
+  toks.all fun t => match t with
+    | .rend id 1 => (match mFind m id with | some st => st.finSent | none => false)
+    | .rend id 2 => (match mFind m id with | some st => st.state == .closed | none => false)
+    | _ => true
+
 def bumpActed (m : Mon) (toks : List Tok) : Mon :=
   { m with acted := toks.foldl (fun a t => match t with
       | .reply i _ => max a i
@@ -359,6 +376,7 @@ def monitor (adv : Nat) : Mon → List Ev → List String → Option String
     | .error c => some c
     | .ok m' =>
       if !m'.void ∧ !goawayLastOK m' (parseGroup g) then some "goaway-last-id-wrong"
+      else if !m'.void ∧ !readEndsOK m' (parseGroup g) then some "read-result-wrong"
       else if closed ∨ gs.head? == some "stop" then none else monitor adv (bumpActed m' (parseGroup g)) es gs
 
 /-! ### bursts: a group of events written back to back, quiescence awaited once -/
@@ -397,7 +415,8 @@ def runGroups (rev : Bool) : State → List (List Ev) → List (List Out) × Sta
              renderEvent a.out != renderEvent b.out || a.status != b.status || reprStr a.st != reprStr b.st
     match a.status with
     | .run => let (o, st, r') := runGroups rev a.st t; (a.out :: o, st, raced || r')
-    | x => ([a.out], x, raced)
+    -- (a burst that contains the frame ending the script: what the later frames of the burst still cause is not modelled)
+    | x => ([a.out], x, raced || g.length > 1)
 
 def renderGroups (r : List (List Out) × Status × Bool) : String :=
   let evs := r.1.map renderEvent
@@ -433,7 +452,8 @@ def run (op impl : String) : Ans :=
         | .hcmd _ (.read _) => "hread" | .hcmd _ (.write _) => "hwrite" | .hcmd _ _ => "hfin" | .graceful => "graceful"
       let outs := (r.1.flatMap id).map fun o => match o with
         | .rst _ c => s!"rst{c}" | .goaway _ c => s!"goaway{c}" | .ping _ => "echo" | .wu 0 _ => "wuconn"
-        | .wu _ _ => "wustream" | .read .. => "consumed" | .reply .. => "reply" | .data _ 0 _ => "datafin" | .data .. => "dataout"
+        | .wu _ _ => "wustream" | .read .. => "consumed" | .rend _ 1 => "readeof" | .rend _ 2 => "readerr"
+        | .rend .. => "readfull" | .reply .. => "reply" | .data _ 0 _ => "datafin" | .data .. => "dataout"
       let verdict :=
         -- a crash or a hang on individually legal frames is a failure whatever the model predicts
         if panicked then "FAIL:server-panic"
